@@ -131,6 +131,10 @@ def merge(results):
 
 
 def main(argv=None):
+    try:  # witnesses may contain lone surrogates or other characters the terminal encoding cannot take
+        sys.stdout.reconfigure(errors="backslashreplace")
+    except Exception:  # noqa: BLE001
+        pass
     ap = argparse.ArgumentParser(prog="vcheck")
     ap.add_argument("prop")
     ap.add_argument("--tier", default=os.environ.get("VERIF_TIER", "quick"), choices=["quick", "thorough"])
@@ -173,7 +177,7 @@ def main(argv=None):
         os.makedirs(replay_dir, exist_ok=True)
         safe = "".join(c if c.isalnum() or c in "-_." else "_" for c in key)[:120]
         path = os.path.join(replay_dir, f"{safe}.json")
-        with open(path, "w", encoding="utf8") as f:
+        with open(path, "w", encoding="utf8", errors="backslashreplace") as f:
             json.dump(
                 {"property": prop, "tier": args.tier, "seed": args.seed, **v},
                 f, indent=1, ensure_ascii=False,
@@ -239,7 +243,7 @@ def write_evidence(mod, prop, args, m, distinct_n, wall, known_lines, viol_lines
     os.makedirs(os.path.join(core.VERIF, "evidence"), exist_ok=True)
     path = os.path.join(core.VERIF, "evidence", f"{prop}.json")
     tmp = path + ".tmp"
-    with open(tmp, "w", encoding="utf8") as f:
+    with open(tmp, "w", encoding="utf8", errors="backslashreplace") as f:
         json.dump(ev, f, indent=1, ensure_ascii=False, sort_keys=False)
         f.write("\n")
     os.replace(tmp, path)
